@@ -28,6 +28,7 @@ type accShape struct {
 	path  string   // access path prefix after the variable name (e.g. ".a")
 	init  func() string
 	total int // number of scalar leaves in the container
+	innerArr bool // the elements are arrays (not vectors): only scalar-leaf access kinds apply
 }
 
 func leafExpr(elem string, k int) string {
@@ -96,6 +97,18 @@ func accShapes() []accShape {
 		init: func() string {
 			return fmt.Sprintf("array<vec3<u32>, 3>(%s, %s, %s)", vecOf("u32", 3, 0), vecOf("u32", 3, 3), vecOf("u32", 3, 6))
 		}})
+	out = append(out, accShape{name: "arr4_arr8u", decl: "array<array<u32, 8>, 4>", n: 4, inner: 8, elem: "u32", total: 32, innerArr: true,
+		init: func() string {
+			rows := make([]string, 4)
+			for r := range rows {
+				ps := make([]string, 8)
+				for j := range ps {
+					ps[j] = fmt.Sprintf("((inp[%du] & 255u) + %du)", (r*8+j)%16, 1000*(r*8+j+1))
+				}
+				rows[r] = "array<u32, 8>(" + strings.Join(ps, ", ") + ")"
+			}
+			return "array<array<u32, 8>, 4>(" + strings.Join(rows, ", ") + ")"
+		}})
 	out = append(out, accShape{name: "struct_arr3", decl: "SA", n: 3, inner: 1, elem: "u32", total: 3, path: ".a",
 		pre: "struct SA { b: u32, a: array<u32, 3>, c: u32 }\n",
 		init: func() string {
@@ -108,7 +121,7 @@ type accKind struct {
 	name string
 }
 
-var accKinds = []string{"load", "store", "opassign", "ptrarg", "loadcomp"}
+var accKinds = []string{"load", "store", "opassign", "ptrarg", "loadcomp", "loaddiag", "storediag"}
 var accSpaces = []string{"function", "private"}
 
 func toWordExpr(elem, e string) string {
@@ -127,7 +140,10 @@ func accProgram(s accShape, space, kind string, idxSigned bool) (string, bool) {
 	if s.inner > 1 {
 		elemTy = fmt.Sprintf("vec%d<%s>", s.inner, s.elem)
 	}
-	if kind == "loadcomp" && s.inner == 1 {
+	if (kind == "loadcomp" || kind == "loaddiag" || kind == "storediag") && s.inner == 1 {
+		return "", false
+	}
+	if s.innerArr && (kind == "load" || kind == "store" || kind == "opassign" || kind == "ptrarg") {
 		return "", false
 	}
 	if kind == "ptrarg" {
@@ -164,6 +180,11 @@ func accProgram(s accShape, space, kind string, idxSigned bool) (string, bool) {
 		// second subscript dynamic too
 		sub := "(inp[30u] % " + fmt.Sprint(s.inner) + "u)"
 		fmt.Fprintf(&b, "  let x = %s[%s];\n  outp[0u] = %s;\n", place, sub, toWordExpr(s.elem, "x"))
+	case "loaddiag":
+		// the SAME index value in both subscripts
+		fmt.Fprintf(&b, "  let i = %s;\n  let x = c%s[i][i];\n  outp[0u] = %s;\n", idx, s.path, toWordExpr(s.elem, "x"))
+	case "storediag":
+		fmt.Fprintf(&b, "  let i = %s;\n  c%s[i][i] = %s;\n", idx, s.path, map[string]string{"u32": "424242u", "i32": "424242i", "f32": "8192.0"}[s.elem])
 	case "store":
 		fmt.Fprintf(&b, "  %s = %s;\n", place, accNewValue(s))
 	case "opassign":
@@ -223,9 +244,45 @@ func accExpected(s accShape, kind string, inp, outp []uint32, idx uint32, signed
 	exp := append([]uint32(nil), outp...)
 	leaves := make([]uint32, s.total)
 	for k := range leaves {
-		leaves[k] = leafVal(s.elem, k, inp)
+		if s.innerArr {
+			leaves[k] = (inp[k%16] & 255) + uint32(1000*(k+1))
+		} else {
+			leaves[k] = leafVal(s.elem, k, inp)
+		}
 	}
 	inRange := idx < uint32(s.n)
+	if kind == "loaddiag" || kind == "storediag" {
+		e1, e2 := int(idx), int(idx)
+		sk := false
+		if idx >= uint32(s.n) || idx >= uint32(s.inner) {
+			switch policy {
+			case "restrict":
+				if e1 > s.n-1 {
+					e1 = s.n - 1
+				}
+				if e2 > s.inner-1 {
+					e2 = s.inner - 1
+				}
+			case "rzsw":
+				sk = true
+			default:
+				return nil
+			}
+		}
+		if kind == "loaddiag" {
+			if sk {
+				exp[0] = 0
+			} else {
+				exp[0] = leaves[e1*s.inner+e2]
+			}
+		} else if !sk {
+			leaves[e1*s.inner+e2] = addWord(s.elem, 0, true)
+		}
+		for k := range leaves {
+			exp[8+k] = leaves[k]
+		}
+		return exp
+	}
 	eff := int(idx)
 	skip := false
 	if !inRange {
@@ -325,13 +382,24 @@ func cmdCAccess(c *ctx) {
 						}
 						var idxs []uint32
 						if hostile {
-							idxs = append(idxs, uint32(s.n), uint32(s.n)+1)
+							idxs = append(idxs, uint32(s.n), uint32(s.n)+1, uint32(s.inner), uint32(s.inner)+1)
+							if s.inner > 1 && s.n != s.inner {
+								lo, hi := s.n, s.inner
+								if lo > hi {
+									lo, hi = hi, lo
+								}
+								idxs = append(idxs, uint32(lo+(hi-lo)/2))
+							}
 							for k := 0; k < 3; k++ {
 								idxs = append(idxs, hostileIdx[c.rng.Intn(len(hostileIdx))])
 							}
 							idxs = append(idxs, c.rng.Uint32())
 						} else {
-							for i := 0; i < s.n; i++ {
+							lim := s.n
+							if (kind == "loaddiag" || kind == "storediag") && s.inner < lim {
+								lim = s.inner
+							}
+							for i := 0; i < lim; i++ {
 								idxs = append(idxs, uint32(i))
 							}
 						}
@@ -339,7 +407,7 @@ func cmdCAccess(c *ctx) {
 							if signed && !hostile && idx > 0x7fffffff {
 								continue
 							}
-							inp, outp := c.inputWords(32), c.inputWords(32)
+							inp, outp := c.inputWords(32), c.inputWords(48)
 							inp[31] = idx
 							exp := accExpected(s, kind, inp, outp, idx, signed, os.policy)
 							if exp == nil {
@@ -438,14 +506,14 @@ type guardRow struct {
 
 // walkGuards collects a row for every non-literal subscript below n.  conds: the rzsw conditions
 // (index text -> N) that enclose the current node.
-func walkGuards(n *snode, conds map[string]int, lenOf func(base *snode) int, out *[]guardRow) {
+func walkGuards(n *snode, conds map[string][]int, lenOf func(base *snode) int, out *[]guardRow) {
 	if n == nil || !n.list {
 		return
 	}
 	switch n.head() {
 	case "tern", "if":
 		c := n.kids[1]
-		add := map[string]int{}
+		add := map[string][]int{}
 		var collect func(x *snode)
 		collect = func(x *snode) {
 			x = stripParen(x)
@@ -455,16 +523,16 @@ func walkGuards(n *snode, conds map[string]int, lenOf func(base *snode) int, out
 				return
 			}
 			if k, ix, ok := rzswCond(x); ok {
-				add[ix] = k
+				add[ix] = append(add[ix], k)
 			}
 		}
 		collect(c)
-		inner := map[string]int{}
+		inner := map[string][]int{}
 		for k, v := range conds {
-			inner[k] = v
+			inner[k] = append([]int{}, v...)
 		}
 		for k, v := range add {
-			inner[k] = v
+			inner[k] = append(inner[k], v...)
 		}
 		walkGuards(c, conds, lenOf, out)
 		walkGuards(n.kids[2], inner, lenOf, out)
@@ -479,7 +547,15 @@ func walkGuards(n *snode, conds map[string]int, lenOf func(base *snode) int, out
 			if el > 0 {
 				if k, ok := restrictGuard(ix); ok {
 					*out = append(*out, guardRow{el, k, 0})
-				} else if nn, ok := conds[sprint(stripParen(ix))]; ok {
+				} else if ns, ok := conds[sprint(stripParen(ix))]; ok && len(ns) > 0 {
+					// the same index expression may be compared against several lengths (x[i][i]): take the comparison
+					// with this object's length when there is one
+					nn := ns[0]
+					for _, v := range ns {
+						if v == el {
+							nn = v
+						}
+					}
 					*out = append(*out, guardRow{el, nn, 1})
 				} else {
 					*out = append(*out, guardRow{el, 0, 2})
@@ -535,6 +611,9 @@ func cmdCGuards(c *ctx) {
 					entry := fs[len(fs)-1]
 					lenOf := func(base *snode) int {
 						base = stripParen(base)
+						for base.head() == "mem" && base.kids[2].atom == "inner" { // MSL array wrapper struct
+							base = stripParen(base.kids[1])
+						}
 						// a subscript of a subscript addresses the inner vector; buffers (inp/outp) are not containers under test
 						switch base.head() {
 						case "idx":
@@ -554,7 +633,7 @@ func cmdCGuards(c *ctx) {
 						return s.n
 					}
 					var rows []guardRow
-					walkGuards(entry.kids[5], map[string]int{}, lenOf, &rows)
+					walkGuards(entry.kids[5], map[string][]int{}, lenOf, &rows)
 					for _, r := range rows {
 						c.line("guards.txt", fmt.Sprintf("%d %d %d %d %d -- %s %s %s", cDialectCodes[os.dialect], os.policy, r.expLen, r.k, r.kind, s.name, space, kind))
 						c.count(fmt.Sprintf("guard-kind-%d", r.kind))
